@@ -321,7 +321,7 @@ def cases(draw, depth, prefix_rate):
 
 
 def plan(tier):
-    return [{"n": 140, "depth": 2, "pr": 4}] * 16 if tier == "quick" else [{"n": 900, "depth": 2, "pr": 1}] * 32 + [{"n": 300, "depth": 3, "pr": 1}] * 16
+    return [{"n": 140, "depth": 2, "pr": 4}] * 16 if tier == "quick" else [{"n": 250, "depth": 2, "pr": 1}] * 32 + [{"n": 80, "depth": 3, "pr": 1}] * 16
 
 
 def run_shard(spec, seed, res, only_bucket=None):
